@@ -815,7 +815,11 @@ func runPrim(c PrimCase, o *vh.Obs) *vh.Failure {
 		}
 		o.Count("pairs", 1)
 	}
-	return nil
+	var pts []V3
+	for _, pr := range c.Pairs {
+		pts = append(pts, pr.A.P, pr.B.P)
+	}
+	return sameClosureConcurrently(f, pts, kind, o)
 }
 
 // ---------------------------------------------------------------- set operations
@@ -960,6 +964,54 @@ func runOp(c OpCase, o *vh.Obs) *vh.Failure {
 			o.Count("points_in_band", 1)
 		}
 		o.Count("points", 1)
+	}
+	// the SAME closure evaluated from several goroutines at once (AddFieldParallel's workers call one
+	// field function concurrently): every value must be the one the closure gives when called alone
+	if len(c.Pts) >= 2 {
+		return sameClosureConcurrently(f, c.Pts, c.Op, o)
+	}
+	return nil
+}
+
+// sameClosureConcurrently evaluates f at pts sequentially, then from four goroutines at the same time
+// (each walking the points from its own start, eight rounds), and compares bit for bit.
+func sameClosureConcurrently(f sample.Vec3ToFloat, pts []V3, what string, o *vh.Obs) *vh.Failure {
+	want := make([]uint64, len(pts))
+	for i, p := range pts {
+		want[i] = math.Float64bits(f(v(p)))
+	}
+	const workers = 4
+	type bad struct {
+		i   int
+		got uint64
+	}
+	found := make([]*bad, workers)
+	start, done := make(chan struct{}), make(chan struct{}, workers)
+	for w := 0; w < workers; w++ {
+		go func(w int) {
+			defer func() { done <- struct{}{} }()
+			<-start
+			for r := 0; r < 8 && found[w] == nil; r++ {
+				for k := range pts {
+					i := (k + w + r) % len(pts)
+					if got := math.Float64bits(f(v(pts[i]))); got != want[i] {
+						found[w] = &bad{i, got}
+						return
+					}
+				}
+			}
+		}(w)
+	}
+	close(start)
+	for w := 0; w < workers; w++ {
+		<-done
+	}
+	o.Class("same-closure-from-4-goroutines")
+	for _, b := range found {
+		if b != nil {
+			return vh.Failf("concurrent/"+what+"/value-differs-from-sequential", "%s: the field evaluated at %v while other goroutines evaluate the same closure gives %v; called alone it gives %v",
+				what, pts[b.i], math.Float64frombits(b.got), math.Float64frombits(want[b.i]))
+		}
 	}
 	return nil
 }
